@@ -527,7 +527,7 @@ func (db *SpecDB) ParseSpecFile(path, pkgPath string, trusted bool) error {
 			}
 			return nil
 		}
-		if c.Kind == "loopunroll" {
+		if c.Kind == "loopunroll" || c.Kind == "returns" {
 			return nil
 		}
 		e, err := ParseSpecExpr(c.Text)
@@ -554,7 +554,7 @@ func (db *SpecDB) ParseSpecFile(path, pkgPath string, trusted bool) error {
 		isHeader := false
 		switch word {
 		case "package", "func", "interface", "functype", "pure", "pred", "axiom", "lemma", "ghost", "sort", "constglobal",
-			"requires", "ensures", "assigns", "decreases", "loop", "after", "inline", "abstracted", "bitprecise", "nooverflow", "panics-if", "trusted", "noalloc", "prune", "maxpaths", "timeout", "noinline", "nosafety":
+			"requires", "ensures", "assigns", "decreases", "loop", "after", "returns", "inline", "abstracted", "bitprecise", "nooverflow", "panics-if", "trusted", "noalloc", "prune", "maxpaths", "timeout", "noinline", "nosafety":
 			isHeader = true
 		}
 		if !isHeader || strings.HasPrefix(word, "requires[") {
@@ -712,6 +712,14 @@ func (db *SpecDB) ParseSpecFile(path, pkgPath string, trusted bool) error {
 				return fmt.Errorf("%s:%d: bad loop clause %q", path, ln+1, w3)
 			}
 			cur.Clauses = append(cur.Clauses, lastClause)
+		case "returns":
+			// returns <result name> <type>: the dynamic type of an interface result (proved, then used to devirtualise calls)
+			if cur == nil {
+				return fmt.Errorf("%s:%d: clause outside block", path, ln+1)
+			}
+			w2, r2 := splitWord(rest)
+			cur.Clauses = append(cur.Clauses, &Clause{Kind: "returns", Text: r2, Callee: w2, Line: ln + 1, File: path})
+			lastClause = nil
 		case "after":
 			// after <callee> [with <closure>] assume <expr>
 			if cur == nil {
